@@ -156,6 +156,19 @@ def task_closure(ctx, pid, host_suffix, traversal):
             # the "no cache" value of a cache type that replaced the `()` implementation: an `Empty` / `None` variant
             lv = strip_refs(q.resolve_captures(lib, cf, e[2][-1])) if cf.is_closure else strip_refs(e[2][-1])
             empty_cache = lv[0] == 'agg' and lv[1].startswith('adt:') and lv[1].rsplit('::', 1)[-1] in ('Empty', 'None') and not lv[2]
+            import re as _re
+            m_ = _re.search(r'\{([A-Za-z0-9_:<>]+)\}\s*$', last_ty)
+            if not empty_cache and m_ and lib.fns.get(m_.group(1)) is not None:
+                # ... or a function item that finds nothing (`no_cached_payoffs`)
+                rr = strip_refs(q.ret_expr(lib.fns[m_.group(1)]))
+                empty_cache = rr[0] == 'agg' and rr[1].endswith('Option::None') and not rr[2]
+            if not empty_cache and lv[0] == 'agg' and lv[1].startswith('closure:') and not lv[2]:
+                # the cache as a lookup function: `&|_| None` captures nothing and finds nothing
+                lk = lib.fns.get(lv[1][len('closure:'):])
+                if lk is not None:
+                    rr = strip_refs(q.ret_expr(lk))
+                    empty_cache = rr[0] == 'agg' and rr[1].endswith('Option::None') and not rr[2]
+                    last_ty = '%s (a capture-less closure returning %s)' % (last_ty, facts.show(rr))
         node = norm(e[2][0])
         r = strip_refs(q.ret_expr(cf))
         key_ok = False
